@@ -25,7 +25,7 @@ RULE = (
 )
 BOUNDS = {"rows": "12-400", "features": "1-3", "fits_per_case": "2-4"}
 ASSUMPTIONS = ["numeric-valued categories are not renamed (their string form is their identity)"]
-BUDGET = {"quick": 500, "thorough": 20000}
+BUDGET = {"quick": 1600, "thorough": 20000}
 DEADLINE_S = {"quick": 230, "thorough": 3300}
 POOLS = ["small_int", "small_int", "dyadic", "half", "yyyymm"]
 
@@ -41,16 +41,17 @@ def strategy(tier):
         st.tuples(st.just("rename"), st.integers(0, 10**6)),
     )
     general = st.tuples(
-        fitted_case(("BinaryCarver", "ContinuousCarver"), quant_pools=POOLS, dev_modes=("none", "none", "same", "perturbed", "independent")),
+        fitted_case(("BinaryCarver", "ContinuousCarver"), quant_pools=POOLS, dev_modes=("none", "none", "same", "perturbed", "independent"), twin_boost=True,
+                    feature_kinds=("continuous", "discrete", "ordinal", "categorical", "categorical", "categorical")),
         st.lists(enc, min_size=1, max_size=3),
-    ).map(lambda t: dict(t[0], encodings=t[1]))
+    ).map(lambda t: dict(t[0], encodings=with_perm(t[0], t[1])))
 
     @st.composite
     def grid_case(draw):
         """One continuous feature whose n distinct values each occur once, with n-1 a multiple of the number of
         quantiles: every quantile level falls exactly on an observation (the rounding-sensitive situation for
         quantile cuts), re-encoded by large exact shifts."""
-        min_freq = draw(st.sampled_from([0.02, 0.05, 0.1, 0.2, 0.25]))
+        min_freq = draw(st.sampled_from([0.02, 0.02, 0.02, 0.15, 0.05, 0.1]))
         q = round(1 / min_freq)
         n = q * draw(st.integers(1, max(1, 400 // q))) + 1
         start = draw(st.sampled_from([0, 0, 1, 2, -3, 8, 40, 200]))
@@ -81,7 +82,19 @@ def strategy(tier):
         case["grid"] = True
         return case
 
-    return st.one_of(general, general, general, grid_case())
+    # (one_of would merge the repeated branches: the share of grid cases is drawn explicitly)
+    grid = grid_case()
+    return st.integers(0, 4).flatmap(lambda i: grid if i <= 1 else general)
+
+
+def with_perm(case, encodings):
+    """Exact ties of target rate between categories are where the row order could matter: such cases always get
+    a row permutation among their re-encodings."""
+    encodings = [list(e) for e in encodings]
+    tied = any(f["kind"] == "categorical" and f.get("twins") for f in case["features"])
+    if tied and not any(e[0] == "perm" for e in encodings):
+        encodings = encodings[:2] + [["perm", case["key"] + 1]]
+    return encodings
 
 
 def make_carver(case, rankings):
@@ -186,10 +199,14 @@ def check_case(case) -> Outcome:
                 if spec.get("flavour") != "str":
                     continue
                 names = sorted(v for v in spec["values"])
-                # new names in the same lexicographic order
-                pool = sorted({f"{rng.choice('bcdfgh')}{i:02d}{rng.choice('xyz')}" for i in range(len(names) + 3)})[: len(names)]
-                pool = sorted(pool)
-                mapping = dict(zip(names, pool))
+                # new names in the same lexicographic order - also relative to the package's own sentinels
+                # '__OTHER__' / '__NAN__', which take part in the same ordering (ties in target rate are
+                # broken by name): names sorting before '_' get upper-case names, the others lower-case ones
+                below = [v for v in names if v < "_"]
+                above = [v for v in names if not v < "_"]
+                pool_below = sorted({f"{rng.choice('BCDFGH')}{i:02d}{rng.choice('XYZ')}" for i in range(len(below) + 3)})[: len(below)]
+                pool_above = sorted({f"{rng.choice('bcdfgh')}{i:02d}{rng.choice('xyz')}" for i in range(len(above) + 3)})[: len(above)]
+                mapping = dict(zip(below + above, pool_below + pool_above))
                 X[f] = X[f].map(lambda v: v if is_missing(v) else mapping[v]).astype(object)
                 if Xd is not None:
                     Xd[f] = Xd[f].map(lambda v: v if is_missing(v) else mapping[v]).astype(object)
